@@ -106,7 +106,10 @@ def check_scans(ctx, kinds=('lower', 'higher', 'closest'), fill_true_only=False,
         try:
             m = ScanModel(ctx.prog, fi, opaque_kind=REPO_RESULT_KIND)
         except Unrecognised as ex:
-            raise AnalysisError(f"C10.3: {fi.name}: two-pointer scan not recognised: {ex}")
+            why = check_closed_form(ctx, kind, fi, fill_true_only)
+            if why is None:
+                continue
+            raise AnalysisError(f"C10.3: {fi.name}: two-pointer scan not recognised: {ex}; nor is it an element-wise closed form: {why}")
         for msg in m.issues:
             ctx.fail('C10.3', f"{kind}: initialisation", msg, fi.loc(), fi.qualname, f"{kind}:init:{msg[:30]}")
         Pf, Mn, Ad = m.prefix, m.main, m.adv
@@ -239,6 +242,95 @@ def check_scans(ctx, kinds=('lower', 'higher', 'closest'), fill_true_only=False,
 
 # operator.lt(a, b) is the comparison a < b (the evaluator folds it to the same predicate): a use in a comparison, not a leak of the element value
 COMPARISON_FUNCTIONS = ('operator.lt', 'operator.le', 'operator.gt', 'operator.ge', 'operator.eq', 'operator.ne')
+
+
+def check_closed_form(ctx, kind: str, fi, fill_true_only=False) -> Optional[str]:
+    """A vectorised implementation (binary search / counting instead of the two-pointer scan): its element-wise closed form is compared with the
+    documented answer on every order type (closedform.py).  Returns None when the function was decided this way (obligations recorded), otherwise the
+    reason why it is not such a form."""
+    from ..symeval import Evaluator
+    from ..closedform import Model, OutOfRange, NotClosed, sorted_arrays, spec_index
+    from ..values import arr_param
+    ps = fi.params()
+    if len(ps) < 2:
+        return 'expected (x, lookup, ...) parameters'
+    Lx, Lq = sym.sym('Lx'), sym.sym('Lq')
+    X, Q = arr_param('X', length=Lx), arr_param('Q', length=Lq)
+    lens = {_atom_of(Lx): 'X', _atom_of(Lq): 'Q'}
+    has_fill = len(ps) > 2
+    fills = (True,) if (fill_true_only or not has_fill) else (True, False)
+    forms = {}
+    for fill in fills:
+        ev = Evaluator(ctx.prog, inline=lambda f: True, opaque_kind=REPO_RESULT_KIND, elementwise=True)
+        args = {ps[0]: X, ps[1]: Q}
+        if has_fill:
+            args[ps[2]] = Const(fill)
+        try:
+            res, _ = ev.run_function(fi, args=args)
+        except AnalysisError as ex:
+            return str(ex)[:200]
+        if ev.issues:
+            return ev.issues[0]
+        if not (isinstance(res, Num) and res.length is not None):
+            return f"result is not an element-wise array value: {show(res, 160)}"
+        forms[fill] = (res, ev)
+    label = f"{kind} (vectorised implementation)"
+    ctx.rule('C10.5', 'a vectorised implementation of a search (counting / binary search instead of the scan) is decided on its element-wise closed form: on every '
+                      'sorted x of 1..4 elements over a lattice (equal elements included) and every query over a wider lattice (below, equal to, between - '
+                      'mid-points included - and above the elements) the form evaluates to the documented index; every element read it makes is in range; '
+                      'the index does not change when all values are mapped by v -> 3v + 7')
+    for fill, (res, ev) in forms.items():
+        ctx.check(res.length == Lq, 'C10.2', f"{label}: one result slot per query", f"extent {sym.show(res.length)[:80]}", fi.loc(), fi.qualname, f"{kind}:alloc:{fill}")
+        gathers = [e for e in ev.events if e.kind == 'gather']
+        bad, n_cases, undecided = None, 0, None
+        try:
+            for xs in sorted_arrays():
+                for q in range(-1, 8):
+                    for scale, shift in ((1, 0), (3, 7)):
+                        xs_, q_ = [scale * x + shift for x in xs], scale * q + shift
+                        mdl = Model(xs_, [q_], 0, lens)
+                        n_cases += 1
+                        want = spec_index(kind, xs_, q_, fill)
+                        try:
+                            for g in gathers:
+                                if g.data.get('mask') is None or mdl.pred(g.data['mask']):
+                                    ix = mdl.rat(g.data['index'].r)
+                                    ln = len(mdl.arr(_ref_of(g.data['base'])))
+                                    if ix.denominator != 1 or not (-ln <= ix < ln):
+                                        raise OutOfRange(f"index array element {ix} into an array of {ln} at line {getattr(g.node, 'lineno', '?')}")
+                            got = mdl.rat(res.r)
+                        except OutOfRange as ex:
+                            bad = bad or f"x = {xs_}, query = {q_}, fill_not_valid = {fill}: {ex} (IndexError)"
+                            continue
+                        if got != want:
+                            bad = bad or f"x = {xs_}, query = {q_}, fill_not_valid = {fill}: the form gives {got}, documented {want}"
+        except NotClosed as ex:
+            undecided = str(ex)
+        if undecided is not None:
+            ctx.unknown('C10.5', f"{label}, fill_not_valid={fill}", f"the closed form mentions a construct the finite-model evaluation does not interpret: {undecided}\n"
+                                                                    f"form: {show(res, 300)}", fi.loc(), fi.qualname, f"{kind}:closed:{fill}")
+            continue
+        ctx.check(bad is None, 'C10.5', f"{label}, fill_not_valid={fill}: documented index on every order type ({n_cases} cases)",
+                  f"{bad}\nform: {show(res, 300)}", fi.loc(), fi.qualname, f"{kind}:closed:{fill}")
+        from .. import dtypes
+        tag = dtypes.dtype_of(res)
+        ctx.check(tag != dtypes.FLOAT, 'C10.2', f"{label}: the result is an integer index array", f"element type {tag}", fi.loc(), fi.qualname, f"{kind}:dtype:{fill}")
+        dtypes.check_events(ctx, ev, 'C10.2', f"{kind} search", fi)
+    ctx.sample({'rule': 'C10.5', 'search': kind, 'form': show(forms[True][0], 200)})
+    return None
+
+
+def _atom_of(r: Rat) -> int:
+    (mm, c), = r.n.t.items()
+    return mm[0][0]
+
+
+def _ref_of(v):
+    if isinstance(v, Num):
+        for a in v.r.atoms():
+            if sym.ATOMS.head(a) == 'el':
+                return sym.ATOMS.args(a)[0]
+    return None
 
 
 def _single(v):
